@@ -35,7 +35,26 @@ pub fn word_from_bits(bits: &[bool]) -> Word {
     assert!(bits.len().is_power_of_two());
     let bytes = bytes_from_bits(bits);
     let mut it = simplicity::BitIter::from(&bytes[..]);
-    Word::from_bits(&mut it, n).unwrap()
+    let direct = Word::from_bits(&mut it, n).unwrap();
+    // Provenance varies with the content: one word in four is decoded on its own; the others are the second component of a
+    // product with a 1-, 2- or 4-bit leading part, taken out again with `as_product` / `to_word` -- a view into the larger
+    // value's buffer at a bit offset that is no multiple of eight (what `scribe` hands to `const_word`).
+    let lead = match (bits.iter().filter(|b| **b).count() + bits.len().trailing_zeros() as usize) % 4 {
+        0 => return direct,
+        1 => Value::u1(1),
+        2 => Value::u2(2),
+        _ => Value::u4(9),
+    };
+    let whole = Value::product(lead, direct.as_value().shallow_clone());
+    let part = whole.as_ref().as_product().unwrap().1.to_word().unwrap();
+    part
+}
+/// the bits of a word read through the value accessors only (never through `Word::iter`)
+pub fn word_bits_by_accessors(v: &simplicity::ValueRef) -> Vec<bool> {
+    if let Some((a, b)) = v.as_product() { let mut x = word_bits_by_accessors(&a); x.extend(word_bits_by_accessors(&b)); x }
+    else if v.as_left().is_some() { vec![false] }
+    else if v.as_right().is_some() { vec![true] }
+    else { panic!("not a word value") }
 }
 
 /// hidden root: an atom id, or the 256 bits themselves
